@@ -2,6 +2,7 @@ import AFDriver.Wire
 import AFModel.Persist
 import AFModel.DictForm
 import AFModel.DictJson
+import AFModel.FloatOps
 
 open Lean (Json)
 open AF AF.Wire
@@ -198,6 +199,27 @@ def handleC08Dict (q : String) (j : Json) : Except String Json := do
       -- the reader on the REAL dictionary
       let d ← dvOfJson (← j.getObjVal? "dict")
       pure (reportPN (fromDV dflt d { next := base }).1)
+  | "asserts" =>
+      -- the reader on the REAL dictionary, then the verdict of every assertion of the reloaded model for values
+      -- given per identity rank
+      let d ← dvOfJson (← j.getObjVal? "dict")
+      let r := (fromDV dflt d { next := base }).1
+      let vals ← vecOfJson (← j.getObjVal? "vals")
+      let allIds := sortDedup (pnLoadOrder r)
+      let ρ (i : Nat) : Inst Float := match indexOf? allIds i with
+        | some k => (match vals[k]? with
+            | some v => .num v
+            | none => .missing)
+        | none => .missing
+      pure (Json.mkObj [("verdicts", Json.arr ((assertVerdicts floatOps (fun _ => []) ρ r).map Json.bool).toArray)])
+  | "pickle" =>
+      let t ← pnOfJson (← j.getObjVal? "pn")
+      let r := pickleRT t
+      let e := erase (fun _ => []) r
+      pure (Json.mkObj [
+        ("paths", Json.arr (((pathPriors e).map (·.1)).map jsonOfPath).toArray),
+        ("ids", Json.arr ((pathPriors e).map (fun x => Json.num ((x.2 : Nat) : Lean.JsonNumber))).toArray),
+        ("dict", jsonOfJV (render (toDV r)))])
   | s => throw s!"bad C08 question {s}"
 
 def handleC08 (j : Json) : Except String Json := do
